@@ -22,9 +22,9 @@ Proofs/Walk.vos Proofs/Walk.vok Proofs/Walk.required_vos: Proofs/Walk.v Model/Da
 Proofs/DagApi.vo Proofs/DagApi.glob Proofs/DagApi.v.beautified Proofs/DagApi.required_vo: Proofs/DagApi.v Model/Dag.vo Proofs/Kahn.vo Proofs/Walk.vo
 Proofs/DagApi.vio: Proofs/DagApi.v Model/Dag.vio Proofs/Kahn.vio Proofs/Walk.vio
 Proofs/DagApi.vos Proofs/DagApi.vok Proofs/DagApi.required_vos: Proofs/DagApi.v Model/Dag.vos Proofs/Kahn.vos Proofs/Walk.vos
-Harness/Glue.vo Harness/Glue.glob Harness/Glue.v.beautified Harness/Glue.required_vo: Harness/Glue.v Lib/Bytes.vo Lib/Val.vo Model/Index.vo Model/Dag.vo Model/Git.vo Model/Tracking.vo
-Harness/Glue.vio: Harness/Glue.v Lib/Bytes.vio Lib/Val.vio Model/Index.vio Model/Dag.vio Model/Git.vio Model/Tracking.vio
-Harness/Glue.vos Harness/Glue.vok Harness/Glue.required_vos: Harness/Glue.v Lib/Bytes.vos Lib/Val.vos Model/Index.vos Model/Dag.vos Model/Git.vos Model/Tracking.vos
+Harness/Glue.vo Harness/Glue.glob Harness/Glue.v.beautified Harness/Glue.required_vo: Harness/Glue.v Lib/Bytes.vo Lib/Val.vo Model/Index.vo Model/Dag.vo Model/Git.vo Model/Tracking.vo Model/CfgFile.vo
+Harness/Glue.vio: Harness/Glue.v Lib/Bytes.vio Lib/Val.vio Model/Index.vio Model/Dag.vio Model/Git.vio Model/Tracking.vio Model/CfgFile.vio
+Harness/Glue.vos Harness/Glue.vok Harness/Glue.required_vos: Harness/Glue.v Lib/Bytes.vos Lib/Val.vos Model/Index.vos Model/Dag.vos Model/Git.vos Model/Tracking.vos Model/CfgFile.vos
 Harness/Extract.vo Harness/Extract.glob Harness/Extract.v.beautified Harness/Extract.required_vo: Harness/Extract.v Harness/Glue.vo
 Harness/Extract.vio: Harness/Extract.v Harness/Glue.vio
 Harness/Extract.vos Harness/Extract.vok Harness/Extract.required_vos: Harness/Extract.v Harness/Glue.vos
@@ -91,3 +91,18 @@ Properties/C13.vos Properties/C13.vok Properties/C13.required_vos: Properties/C1
 AsFound/C13.vo AsFound/C13.glob AsFound/C13.v.beautified AsFound/C13.required_vo: AsFound/C13.v Model/Tracking.vo Proofs/TrackingProof.vo Properties/C13.vo
 AsFound/C13.vio: AsFound/C13.v Model/Tracking.vio Proofs/TrackingProof.vio Properties/C13.vio
 AsFound/C13.vos AsFound/C13.vok AsFound/C13.required_vos: AsFound/C13.v Model/Tracking.vos Proofs/TrackingProof.vos Properties/C13.vos
+Model/CfgFile.vo Model/CfgFile.glob Model/CfgFile.v.beautified Model/CfgFile.required_vo: Model/CfgFile.v 
+Model/CfgFile.vio: Model/CfgFile.v 
+Model/CfgFile.vos Model/CfgFile.vok Model/CfgFile.required_vos: Model/CfgFile.v 
+Proofs/CfgFileProof.vo Proofs/CfgFileProof.glob Proofs/CfgFileProof.v.beautified Proofs/CfgFileProof.required_vo: Proofs/CfgFileProof.v Model/CfgFile.vo
+Proofs/CfgFileProof.vio: Proofs/CfgFileProof.v Model/CfgFile.vio
+Proofs/CfgFileProof.vos Proofs/CfgFileProof.vok Proofs/CfgFileProof.required_vos: Proofs/CfgFileProof.v Model/CfgFile.vos
+Properties/C17.vo Properties/C17.glob Properties/C17.v.beautified Properties/C17.required_vo: Properties/C17.v Model/CfgFile.vo Proofs/CfgFileProof.vo
+Properties/C17.vio: Properties/C17.v Model/CfgFile.vio Proofs/CfgFileProof.vio
+Properties/C17.vos Properties/C17.vok Properties/C17.required_vos: Properties/C17.v Model/CfgFile.vos Proofs/CfgFileProof.vos
+Properties/C18.vo Properties/C18.glob Properties/C18.v.beautified Properties/C18.required_vo: Properties/C18.v Model/CfgFile.vo Proofs/CfgFileProof.vo
+Properties/C18.vio: Properties/C18.v Model/CfgFile.vio Proofs/CfgFileProof.vio
+Properties/C18.vos Properties/C18.vok Properties/C18.required_vos: Properties/C18.v Model/CfgFile.vos Proofs/CfgFileProof.vos
+AsFound/C17.vo AsFound/C17.glob AsFound/C17.v.beautified AsFound/C17.required_vo: AsFound/C17.v Model/CfgFile.vo Properties/C17.vo Properties/C18.vo
+AsFound/C17.vio: AsFound/C17.v Model/CfgFile.vio Properties/C17.vio Properties/C18.vio
+AsFound/C17.vos AsFound/C17.vok AsFound/C17.required_vos: AsFound/C17.v Model/CfgFile.vos Properties/C17.vos Properties/C18.vos
